@@ -444,3 +444,70 @@ pub fn dist_program(i: u64, sink: &mut ChildSink) {
         _ => { let s = [(0u8, 1u8), (0, 255), (250, 255), (3, 100)][sup]; dist_case::<u8, u16, 12>(sink, i, shape, hint, s.0, s.1, "u8/u16/12") }
     }
 }
+
+// ---------------------------------------------------------------- user-written entropy models that lie
+// `EncoderModel` / `DecoderModel` are safe traits: a user's impl may return any (left cumulative, probability), also
+// pairs that do not fit the precision, and a decoder model may answer any quantile with anything. Functional
+// guarantees are void then; memory safety is not (only std's unsafe-precondition checks and signals are verdicts here).
+#[derive(Clone, Copy, Debug)]
+struct Liar<const P: usize> { s: u8, c: u8, p: u8 }
+impl<const P: usize> EntropyModel<P> for Liar<P> { type Symbol = u8; type Probability = u8; }
+impl<const P: usize> DecoderModel<P> for Liar<P> {
+    fn quantile_function(&self, _q: u8) -> (u8, u8, core::num::NonZeroU8) { (self.s, self.c, core::num::NonZeroU8::new(self.p).unwrap()) }
+}
+const LIE_C: [u8; 7] = [0, 1, 15, 16, 127, 128, 255];
+const LIE_P: [u8; 5] = [1, 2, 16, 128, 255];
+pub fn liar_total() -> u64 { (LIE_C.len() * LIE_P.len()).pow(2) as u64 * 2 * 5 }
+fn liar_case<const P: usize>(kind: u64, a: (u8, u8), b: (u8, u8)) {
+    let (ra, rb) = (Raw::<u8, P> { c: a.0, p: a.1 }, Raw::<u8, P> { c: b.0, p: b.1 });
+    let (la, lb) = (Liar::<P> { s: 7, c: a.0, p: a.1 }, Liar::<P> { s: 200, c: b.0, p: b.1 });
+    let data: Vec<u8> = vec![0x12, 0xff, 0x00, 0x80, 0x5a, 0x01, 0xfe, 0x33];
+    match kind {
+        0 => {
+            let mut c = AnsCoder::<u8, u16>::from_binary(data.clone()).unwrap();
+            let _ = guarded(|| { let _ = c.decode_symbol(la); let _ = c.decode_symbol(lb); let _ = c.encode_symbol((), ra); let _ = c.encode_symbol((), rb); let _ = c.decode_symbol(lb); });
+            let _ = guarded(|| { let _ = c.get_compressed().map(|x| x.len()); let _ = c.clone().into_binary(); c.num_valid_bits() });
+        }
+        1 => {
+            let mut c = AnsCoder::<u8, u32>::new();
+            let _ = guarded(|| { let _ = c.encode_symbol((), ra); let _ = c.encode_symbol((), rb); let _ = c.encode_symbol((), ra); let _ = c.decode_symbol(la); let _ = c.decode_symbol(lb); let _ = c.decode_symbol(la); let _ = c.decode_symbol(la); });
+            let _ = guarded(|| c.into_compressed().map(|x| x.len()));
+        }
+        2 => {
+            let mut e = RangeEncoder::<u8, u16>::new();
+            let _ = guarded(|| { for _ in 0..3 { let _ = e.encode_symbol((), ra); let _ = e.encode_symbol((), rb); } });
+            let words = guarded(|| e.get_compressed().to_vec());
+            if let Outcome::Value(w) = words {
+                if let Ok(mut d) = RangeDecoder::<u8, u16, _>::from_compressed(w) {
+                    let _ = guarded(|| { for _ in 0..4 { let _ = d.decode_symbol(la); let _ = d.decode_symbol(lb); } d.maybe_exhausted() });
+                }
+            }
+        }
+        3 => {
+            let mut d = RangeDecoder::<u8, u32, _>::from_compressed(data.clone()).unwrap();
+            let _ = guarded(|| { for _ in 0..4 { let _ = d.decode_symbol(la); let _ = d.decode_symbol(lb); } });
+            let mut e = RangeEncoder::<u8, u32>::with_backend(data.clone());
+            let _ = guarded(|| { for _ in 0..3 { let _ = e.encode_symbol((), rb); let _ = e.encode_symbol((), ra); } });
+            let _ = guarded(|| e.into_compressed().map(|x| x.len()));
+        }
+        _ => {
+            if let Ok(mut c) = ChainCoder::<u8, u16, Vec<u8>, Vec<u8>, P>::from_binary(data.clone()) {
+                let _ = guarded(|| { let _ = c.decode_symbol(la); let _ = c.decode_symbol(lb); let _ = c.decode_symbol(la); let _ = c.encode_symbol((), rb); let _ = c.encode_symbol((), ra); let _ = c.encode_symbol((), ra); let _ = c.encode_symbol((), rb); });
+                let _ = guarded(|| c.into_remainders().map(|x| x.0.len()));
+            }
+        }
+    }
+}
+pub fn liar_program(i: u64, sink: &mut ChildSink) {
+    let npairs = (LIE_C.len() * LIE_P.len()) as u64;
+    let mut k = i;
+    let kind = k % 5; k /= 5;
+    let prec = k % 2; k /= 2;
+    let (ia, ib) = ((k % npairs) as usize, (k / npairs) as usize);
+    let a = (LIE_C[ia / LIE_P.len()], LIE_P[ia % LIE_P.len()]);
+    let b = (LIE_C[ib / LIE_P.len()], LIE_P[ib % LIE_P.len()]);
+    sink.count("hostile_programs", 1);
+    sink.count("lying_model_programs", 1);
+    if prec == 0 { liar_case::<8>(kind, a, b) } else { liar_case::<4>(kind, a, b) }
+    sink.count("programs_ending_in_a_value_or_error", 1);
+}
